@@ -52,6 +52,7 @@ structure NewTask where
   act : Bool := true
   setup : List Name := []          -- `setup` and the sources of `getargs` (wave 5)
   calcDep : List Name := []         -- `calc_dep` (wave 5)
+  wild : List Nat := []             -- wildcard task_deps (pattern ids; `Task.wild_dep`); read by `Model/DelayedX.lean` only
 deriving Repr, Inhabited, DecidableEq
 
 inductive Err | cyclic | notFound (x : Name) | dupTarget | crash
@@ -75,6 +76,7 @@ structure Input where
   fails : Name → Bool := fun _ => false    -- the task's action fails
   noAct : Name → Bool := fun _ => false    -- no action: start is not observable
   delivers : Name → List Name := fun _ => []  -- `task.values['task_dep']` of a successfully executed (calc) task
+  wmatch : Nat → Name → Bool := fun _ _ => false  -- `fnmatch.fnmatch(name, pattern)` (oracle)
 
 inductive PC
   | start                            -- top of `_add_task`: the `regex_group.found` test
